@@ -349,7 +349,7 @@ impl<'a> Builder<'a> {
         } else if self.spec.vol_label {
             slots.push(entry_raw(b"SIMVOLUME  ", 0x08, 0, 0, fat32, FORMAT_TIME));
         }
-        let cap: usize = if is_root && !fat32 { self.g.root_entries as usize } else { usize::MAX };
+        let cap: usize = if is_root && !fat32 { self.g.root_dir_sectors as usize * 16 } else { usize::MAX };
         // how many children here
         let nd = if depth < self.spec.depth && self.dirs_left > 0 { self.rng.range(0, self.dirs_left.min(3) as u64) as u32 } else { 0 };
         let nf = if self.files_left > 0 {
@@ -454,7 +454,7 @@ impl<'a> Builder<'a> {
             let per = 16 * self.g.spc as usize;
             // sometimes two or three full clusters, so that growth starts from a chain that already has a middle
             let want_clusters = *self.rng.pick(&[1usize, 1, 2, 3]);
-            let total = if is_root && !fat32 { self.g.root_entries as usize } else { ((slots.len() + k as usize + per - 1) / per).max(want_clusters) * per };
+            let total = if is_root && !fat32 { self.g.root_dir_sectors as usize * 16 } else { ((slots.len() + k as usize + per - 1) / per).max(want_clusters) * per };
             let pad = make_name("NOBODY", "");
             let units = [0x0050u16, 0x0041, 0x0044, 0, 0xFFFF, 0xFFFF, 0xFFFF, 0xFFFF, 0xFFFF, 0xFFFF, 0xFFFF, 0xFFFF, 0xFFFF];
             while slots.len() + (k as usize) < total {
@@ -831,7 +831,7 @@ fn hook_into_root(img: &mut Image, g: &Geom, fv: &FatViewTmp, entry: &[u8; 32]) 
             blocks.push(g.root_dir_start + i);
         }
     }
-    let mut left = if g.fat32 { u32::MAX } else { g.root_entries };
+    let mut left = if g.fat32 { u32::MAX } else { g.root_dir_sectors * 16 };
     for blk in blocks {
         let b = img.get(blk);
         for s in 0..16usize {
